@@ -199,6 +199,33 @@ pub fn templates(t: &mut Tape, fam: Fam) -> Vec<Vec<u8>> {
                 cs(&mut d, &v);
             }
             d.push(0);
+            if t.draw(DATA, 4) == 0 {
+                // a table that announces many rows and a great many columns and then simply ends (or
+                // goes on for a few cells): rows x columns cells are announced, almost none are sent
+                d.push(0);
+                d.push(*t.pick(DATA, &[255u8, 254, 128, 2, 1]));
+                let cols = *t.pick(DATA, &[50usize, 2_000, 16_000, 30_000]);
+                for i in 0 .. cols {
+                    if t.draw(DATA, 2) == 0 {
+                        d.push(b'a' + (i % 26) as u8);
+                    } else {
+                        d.push(b'a' + (i % 26) as u8);
+                        d.push(b'a' + ((i / 26) % 26) as u8);
+                    }
+                    d.push(0);
+                    if d.len() > 65_000 {
+                        break;
+                    }
+                }
+                d.push(0);
+                for _ in 0 .. t.draw(DATA, 5) {
+                    cs(&mut d, "x");
+                }
+                if t.draw(DATA, 2) == 0 {
+                    d.push(0xff); // not UTF-8
+                }
+                return vec![d];
+            }
             d.extend_from_slice(&[0, 1]);
             for f in ["player_", "score_", "ping_", "team_"] {
                 cs(&mut d, f);
